@@ -16,7 +16,9 @@ META = {
     "tables": ["GenEnums"],
     "files": ["asyncfix/connection.py", "asyncfix/codec.py", "asyncfix/session.py", "asyncfix/journaler.py"],
     "rule": "histories of send attempts (Logon, Logout, application, Heartbeat, TestRequest with and without a pending probe, "
-            "ResendRequest, SequenceReset and PossDup messages numbered by themselves) interleaved with inbound messages that cause "
+            "ResendRequest, SequenceReset and PossDup messages numbered by themselves, application messages carrying header flags that "
+            "do not make them retransmissions: PossResend(97)=Y/N, PossDupFlag=N / =y, GapFillFlag on a non-SequenceReset, "
+            "OrigSendingTime alone) interleaved with inbound messages that cause "
             "sends (Logon reply, TestRequest -> Heartbeat, gaps -> ResendRequest, wrong TestReqID / integrity failures -> Logout, "
             "ResendRequest -> replay) and send_test_req / disconnect calls; exhaustive to length 2 over the full alphabet and "
             "length 3 over the core alphabet from NETWORK_CONN_ESTABLISHED (both roles), LOGON_INITIAL_SENT, ACTIVE, "
@@ -37,11 +39,19 @@ META = {
 MOD = "harness.c05"
 
 SEND_CORE = [{"t": "A"}, {"t": "5"}, {"t": "D"}, {"t": "0"}, {"t": "1"}]
-SEND_FULL = SEND_CORE + [{"t": "2"}, {"t": "8"}, {"t": "4", "seq": "nout"}, {"t": "4", "seq": "below"}, {"t": "4", "seq": "above"},
+SEND_FULL = SEND_CORE + [{"t": "1", "id": "match"}, {"t": "2"}, {"t": "8"}, {"t": "4", "seq": "nout"}, {"t": "4", "seq": "below"}, {"t": "4", "seq": "above"},
                          {"t": "4", "seq": "missing"}, {"t": "4", "seq": "nout", "plain": True}, {"t": "4", "seq": "below", "plain": True},
                          {"t": "4", "seq": "above", "plain": True}, {"t": "D", "pd": True, "seq": "below"}, {"t": "D", "pd": True, "seq": "nout"},
                          {"t": "D", "pd": True, "seq": "missing"}, {"t": "D", "stale": "34", "seq": "below"},
                          {"t": "D", "stale": "N", "seq": "below"}, {"t": "D", "stale": "N", "seq": "above"}, {"t": "D", "pdn": True}]
+# application messages carrying header flags that do NOT make them retransmissions: PossResend(97)=Y/N, PossDupFlag=N or
+# a value other than the literal "Y", GapFillFlag(123)=Y on a message that is not a SequenceReset, OrigSendingTime alone,
+# LastMsgSeqNumProcessed; a plain SequenceReset with PossResend.  All are NEW messages: numbered, journaled, counted
+SEND_FLAGS = [{"t": "D", "extra": [["97", "Y"]]}, {"t": "8", "extra": [["97", "Y"], ["122", "20221231-23:59:59.000"]]},
+              {"t": "0", "extra": [["97", "Y"]]}, {"t": "D", "extra": [["97", "N"]]}, {"t": "D", "extra": [["43", "N"]]},
+              {"t": "D", "extra": [["43", "y"]]}, {"t": "D", "extra": [["123", "Y"]]}, {"t": "D", "extra": [["122", "20221231-23:59:59.000"]]},
+              {"t": "D", "extra": [["369", "5"], ["50", "Y"], ["57", "Y"]]},
+              {"t": "4", "seq": "nout", "extra": [["97", "Y"]]}, {"t": "5", "extra": [["97", "Y"]]}, {"t": "A", "extra": [["97", "Y"]]}]
 IN_CORE = [{"cls": "logon", "rel": "at"}, {"cls": "app", "rel": "at"}, {"cls": "app", "rel": "plus1"}, {"cls": "tr", "rel": "at"},
            {"cls": "hb", "rel": "at", "id": "wrong"}]
 IN_FULL = IN_CORE + [{"cls": "logon", "rel": "plus1"}, {"cls": "hb", "rel": "at", "id": "match"}, {"cls": "logout", "rel": "at"},
@@ -79,11 +89,26 @@ def make_jobs(spec):
         for c in itertools.islice(itertools.product(range(len(sl)), *[range(len(al))] * length), lo, hi):
             jobs.append((sl[c[0]], [al[i] for i in c[1:]] + [("send", {"t": "D"})]))
         return jobs
+    if kind == "flags":
+        # every start x every flagged application send (SEND_FLAGS), before and after each symbol of the core
+        # alphabet and followed by a ResendRequest for everything / a plain send (is the row there? is the number consumed?)
+        sl = start_list()
+        core = alphabet(False)
+        follow = [("send", {"t": "D"}), ("in", {"cls": "rr", "rel": "at", "b": "first", "e": "inf"}), ("in", {"cls": "tr", "rel": "at"}),
+                  ("disc", 3, "bye")]
+        jobs = []
+        for st in sl:
+            for f in SEND_FLAGS:
+                for x in follow:
+                    jobs.append((st, [("send", f), x, ("send", {"t": "D"})]))
+                for x in core:
+                    jobs.append((st, [x, ("send", f), ("send", {"t": "D"})]))
+        return jobs
     if kind == "rand":
         _, seed, n, maxlen = spec
         rng = random.Random(seed)
         from harness import c04
-        al = alphabet(True)
+        al = alphabet(True) + [("send", f) for f in SEND_FLAGS]
         jobs = []
         for _ in range(n):
             st = dict(rng.choice(start_list((1, 2, 7, 100, 2 ** 31, 2 ** 62))))
@@ -236,6 +261,7 @@ def run(ctx):
         specs.append(("exh", True, 2, lo, hi))
     for lo, hi in _chunks(core3, 16):
         specs.append(("exh", False, 3, lo, hi))
+    specs.append(("flags",))
     if ctx.tier == "thorough":
         full3 = ns * len(alphabet(True)) ** 3
         rs = random.Random(ctx.seed + 3)
